@@ -341,6 +341,15 @@ theorem make_compose (y m d h mi s ms : Int) :
   · simp only [hc, Bool.false_eq_true, if_false]; omega
 
 
+theorem make_compose_ms (y m d h mi s ms : Int) :
+    goUnixMilli (goDateMs y (m + 1) d h mi s ms) =
+      Spec.MakeDate (Spec.MakeDay y m d) (Spec.MakeTime h mi s ms) := by
+  unfold goDateMs
+  rw [make_compose]
+  unfold Spec.MakeDate Spec.MakeTime goMod
+  generalize goDiv ms 1000 = q
+  omega
+
 -- ---------------------------------------------------------------- setters
 
 def toSpec : Setter → Spec.Setter
@@ -360,12 +369,12 @@ theorem newEcmaTime_state (t : Int) : newEcmaTime (stateTime t) =
   simp [newEcmaTime, goYear, goMonth, goDay, hd, goHour_state, goMinute_state, goSecond_state, goMilli_state]
 
 theorem setter_core (k : Setter) (t : Int) (vs : List Int) (hk : k ≠ .time) (h1 : 1 ≤ vs.length) (h2 : vs.length ≤ k.limit) :
-    some (setCore k (stateTime t) vs) = Spec.setUTCRaw (toSpec k) (some t) (vs.map fvInt) := by
+    some (setCoreU k (stateTime t) vs) = Spec.setUTCRaw (toSpec k) (some t) (vs.map fvInt) := by
   have hD := makeDay_roundtrip t
   have hT := makeTime_roundtrip t
   rcases vs with _ | ⟨a, _ | ⟨b, _ | ⟨c, _ | ⟨d, _ | ⟨e, rest⟩⟩⟩⟩⟩ <;> cases k <;>
     simp [Setter.limit] at h1 h2 hk <;>
-    simp [setCore, applySetter, newEcmaTime_state, EcmaTime.goTime, make_compose, toSpec, Spec.setUTCRaw, Spec.argOr, field_fvInt, hD, hT]
+    simp [setCoreU, applySetter, newEcmaTime_state, EcmaTime.goTimeCore, make_compose_ms, toSpec, Spec.setUTCRaw, Spec.argOr, field_fvInt, hD, hT]
 
 -- ---------------------------------------------------------------- the float64 gate (dateObject.Set)
 
@@ -608,35 +617,173 @@ theorem stateOf_value (tv : Spec.TV) : (stateOf tv).value = tv := by cases tv <;
 
 theorem newDate_zero : newDate zero = validState 0 := by decide +kernel
 
-theorem setUTC_valid (k : Setter) (t : Int) (vs : List Int) (hk : k ≠ .time) (h1 : 1 ≤ vs.length) (h2 : vs.length ≤ k.limit)
-    (hsm : ∀ v ∈ vs, v.natAbs < 2^53)
-    (hdiv : ∀ t', Spec.setUTCRaw (toSpec k) (some t) (vs.map ofInt) = some t' → t'.natAbs ≤ 8640000000000000 → DivExact t') :
+
+-- ---------------------------------------------------------------- ranges of the civil fields
+
+theorem field_ranges (t : Int) :
+    (0 ≤ Spec.MonthFromTime t ∧ Spec.MonthFromTime t ≤ 11) ∧ (1 ≤ Spec.DateFromTime t ∧ Spec.DateFromTime t ≤ 31) ∧
+    (0 ≤ Spec.WeekDay t ∧ Spec.WeekDay t ≤ 6) ∧ (0 ≤ Spec.HourFromTime t ∧ Spec.HourFromTime t ≤ 23) ∧
+    (0 ≤ Spec.MinFromTime t ∧ Spec.MinFromTime t ≤ 59) ∧ (0 ≤ Spec.SecFromTime t ∧ Spec.SecFromTime t ≤ 59) ∧
+    (0 ≤ Spec.msFromTime t ∧ Spec.msFromTime t ≤ 999) := by
+  have hm := monthFromTime_range t
+  have hr := dayWithinYear_range t
+  have hl := inLeapYear_01 t
+  refine ⟨hm, ?_, ?_, ?_, ?_, ?_, ?_⟩
+  · rw [dateFromTime_eq]
+    have hmo : Spec.MonthFromTime t = monthOf (Spec.DayWithinYear t) (Spec.InLeapYear t) := rfl
+    generalize Spec.MonthFromTime t = m at *
+    generalize Spec.DayWithinYear t = d at *
+    generalize Spec.InLeapYear t = l at *
+    subst hmo
+    unfold monthOf
+    repeat' split
+    all_goals (simp only [Spec.monthStart]; omega)
+  all_goals (simp only [Spec.WeekDay, Spec.HourFromTime, Spec.MinFromTime, Spec.SecFromTime, Spec.msFromTime]; omega)
+
+
+
+/-- the year of a time value in the ES5 range -/
+theorem year_bound (t : Int) (h : t.natAbs ≤ 8640000000000000) :
+    -271821 ≤ Spec.YearFromTime t ∧ Spec.YearFromTime t ≤ 275760 := by
+  have hb := yft_bounds t
+  have hd : -100000000 ≤ Spec.Day t ∧ Spec.Day t ≤ 100000000 := by unfold Spec.Day; omega
+  have e1 : Spec.DayFromYear 275761 = 100000110 := by decide
+  have e2 : Spec.DayFromYear (-271821) = -100000109 := by decide
+  constructor
+  · by_cases hc : Spec.YearFromTime t + 1 ≤ -271821
+    · have := dayFromYear_le _ _ hc; omega
+    · omega
+  · by_cases hc : 275761 ≤ Spec.YearFromTime t
+    · have := dayFromYear_le _ _ hc; omega
+    · omega
+
+
+-- ---------------------------------------------------------------- the too-large guard, setters, histories
+
+
+/-- dateFieldsTooLarge on integers -/
+def hugeInt (y m d h mi s ms : Int) : Bool :=
+  decide (y.natAbs > 2500000 ∨ m.natAbs > 25000000 ∨ d.natAbs > 1000000000 ∨ h.natAbs > 24000000000 ∨
+    mi.natAbs > 1440000000000 ∨ s.natAbs > 86400000000000 ∨ ms.natAbs > 86400000000000000)
+
+theorem lt_fvC_abs (n : Nat) (i : Int) : lt (fvC n) (abs (fvInt i)) = decide (i.natAbs > n) := by
+  rw [abs_fvInt, show fvC n = fvInt (n : Int) by simp [fvC, fvInt], lt_fvInt]
+  by_cases h : i.natAbs > n
+  · simp [h]
+  · simp [h]
+
+theorem tooLarge_fvInt (y m d h mi s ms : Int) :
+    tooLarge (fvInt y) (fvInt m) (fvInt d) (fvInt h) (fvInt mi) (fvInt s) (fvInt ms) = hugeInt y m d h mi s ms := by
+  unfold tooLarge hugeInt
+  simp only [lt_fvC_abs]
+  simp [Bool.or_assoc]
+
+/-- the civil fields of a time value, as newEcmaTime reads them -/
+def ecmaOf (t : Int) : EcmaTime :=
+  { year := Spec.YearFromTime t, month := Spec.MonthFromTime t, day := Spec.DateFromTime t, hour := Spec.HourFromTime t,
+    minute := Spec.MinFromTime t, second := Spec.SecFromTime t, millisecond := Spec.msFromTime t }
+
+/-- the too-large guard trips for this call -/
+def setterHuge (k : Setter) (t : Int) (vs : List Int) : Bool :=
+  let e := applySetter k (ecmaOf t) vs
+  hugeInt e.year e.month e.day e.hour e.minute e.second e.millisecond
+
+theorem ecma_small (k : Setter) (t : Int) (ht : t.natAbs ≤ 8640000000000000) (vs : List Int) (hsm : ∀ v ∈ vs, v.natAbs < 2^53) :
+    let e := applySetter k (ecmaOf t) vs
+    e.year.natAbs < 2^53 ∧ e.month.natAbs < 2^53 ∧ e.day.natAbs < 2^53 ∧ e.hour.natAbs < 2^53 ∧ e.minute.natAbs < 2^53 ∧
+    e.second.natAbs < 2^53 ∧ e.millisecond.natAbs < 2^53 := by
+  obtain ⟨hm, hdt, _, hh, hmi, hs, hms⟩ := field_ranges t
+  obtain ⟨hy0, hy1⟩ := year_bound t ht
+  rcases vs with _ | ⟨a, _ | ⟨b, _ | ⟨c, _ | ⟨d, _ | ⟨e, rest⟩⟩⟩⟩⟩ <;> cases k <;>
+    simp only [applySetter, ecmaOf, List.mem_cons, List.mem_nil_iff, or_false, forall_eq_or_imp, forall_eq] at hsm ⊢ <;>
+    (try obtain ⟨h1, h2, h3, h4⟩ := hsm) <;> (try obtain ⟨h1, h2, h3⟩ := hsm) <;> (try obtain ⟨h1, h2⟩ := hsm) <;>
+    (refine ⟨?_, ?_, ?_, ?_, ?_, ?_, ?_⟩ <;> omega)
+
+theorem newEcmaTime_ecmaOf (t : Int) : newEcmaTime (stateTime t) = ecmaOf t := newEcmaTime_state t
+
+theorem goTime_guard (e : EcmaTime)
+    (hs : e.year.natAbs < 2^53 ∧ e.month.natAbs < 2^53 ∧ e.day.natAbs < 2^53 ∧ e.hour.natAbs < 2^53 ∧ e.minute.natAbs < 2^53 ∧
+      e.second.natAbs < 2^53 ∧ e.millisecond.natAbs < 2^53) :
+    e.goTime = if hugeInt e.year e.month e.day e.hour e.minute e.second e.millisecond then ⟨17280000000000, 0⟩ else e.goTimeCore := by
+  obtain ⟨h1, h2, h3, h4, h5, h6, h7⟩ := hs
+  unfold EcmaTime.goTime
+  rw [ofInt_small _ h1, ofInt_small _ h2, ofInt_small _ h3, ofInt_small _ h4, ofInt_small _ h5, ofInt_small _ h6, ofInt_small _ h7,
+    tooLarge_fvInt]
+
+theorem spec_setUTC_range (k : Spec.Setter) (tv : Spec.TV) (args : List FV) (t' : Int) (h : Spec.setUTC k tv args = some t') :
+    t'.natAbs ≤ 8640000000000000 := by
+  unfold Spec.setUTC at h
+  cases hr : Spec.setUTCRaw k tv args with
+  | none => simp [hr] at h
+  | some r =>
+    simp only [hr, Option.bind_some, Spec.TimeClip] at h
+    split at h
+    · simp at h
+    · injection h with h; subst h; omega
+
+/-- one setUTC* call on a valid date: unless the too-large guard trips while ES5 still gets a valid date
+    (`huge_field_cancel`), new state and return value are the ES5 ones -/
+theorem setUTC_valid (k : Setter) (t : Int) (ht : t.natAbs ≤ 8640000000000000) (vs : List Int) (hk : k ≠ .time)
+    (h1 : 1 ≤ vs.length) (h2 : vs.length ≤ k.limit) (hsm : ∀ v ∈ vs, v.natAbs < 2^53)
+    (hdiv : ∀ t', Spec.setUTCRaw (toSpec k) (some t) (vs.map ofInt) = some t' → t'.natAbs ≤ 8640000000000000 → DivExact t')
+    (hnc : ¬ (setterHuge k t vs = true ∧ (Spec.setUTC (toSpec k) (some t) (vs.map ofInt)).isSome = true)) :
     setUTC k (validState t) (vs.map ofInt) =
       (stateOf (Spec.setUTC (toSpec k) (some t) (vs.map ofInt)), Spec.setUTC (toSpec k) (some t) (vs.map ofInt)) := by
-  rw [map_ofInt_small vs hsm] at hdiv ⊢
+  rw [map_ofInt_small vs hsm] at hdiv hnc ⊢
   have hc := setter_core k t vs hk h1 h2
-  have hspec : Spec.setUTC (toSpec k) (some t) (vs.map fvInt) = Spec.TimeClip (setCore k (stateTime t) vs) := by
+  have hspec : Spec.setUTC (toSpec k) (some t) (vs.map fvInt) = Spec.TimeClip (setCoreU k (stateTime t) vs) := by
     unfold Spec.setUTC; rw [← hc]; rfl
-  have hd := set_ofInt (validState t) (setCore k (stateTime t) vs) (hdiv _ hc.symm)
   have htake : (vs.map fvInt).take k.limit = vs.map fvInt := by
     apply List.take_of_length_le; simp; exact h2
   have hne : (vs.map fvInt).isEmpty = false := by
     cases vs with
     | nil => simp at h1
     | cons a as => rfl
-  rw [hspec]
+  have hsmall := ecma_small k t ht vs hsm
+  simp only [] at hsmall
+  have hg := goTime_guard (applySetter k (ecmaOf t) vs) hsmall
+  have hcore : setCore k (stateTime t) vs =
+      if setterHuge k t vs then 17280000000000000 else setCoreU k (stateTime t) vs := by
+    unfold setCore setCoreU setterHuge
+    rw [newEcmaTime_ecmaOf, hg]
+    split <;> rfl
+  have hset : (validState t).set (ofInt (setCore k (stateTime t) vs)) = stateOf (Spec.setUTC (toSpec k) (some t) (vs.map fvInt)) := by
+    rw [hcore]
+    by_cases hh : setterHuge k t vs = true
+    · simp only [hh, if_true]
+      have hn : Spec.setUTC (toSpec k) (some t) (vs.map fvInt) = none := by
+        cases hs : Spec.setUTC (toSpec k) (some t) (vs.map fvInt) with
+        | none => rfl
+        | some x => exact absurd ⟨hh, by simp [hs]⟩ hnc
+      rw [hn, set_ofInt _ _ (by intro h; omega)]
+      rfl
+    · simp only [hh, if_false]
+      rw [hspec]
+      exact set_ofInt _ _ (hdiv _ hc.symm)
   unfold setUTC
   cases k <;> first | exact absurd rfl hk | (
-    simp only [validState, Bool.false_eq_true, if_false, and_false, htake, hne, numberArgs_small vs hsm] at hd ⊢
-    rw [show stateTime t = (validState t).time from rfl] at hd ⊢
-    simp only [validState] at hd ⊢
-    rw [hd, stateOf_value])
+    simp only [validState, Bool.false_eq_true, if_false, false_and, htake, hne] at hset ⊢
+    simp only [numberArgs_small vs hsm]
+    rw [show stateTime t = (validState t).time from rfl] at hset
+    simp only [validState] at hset
+    rw [hset, stateOf_value])
+
+/-- a time value as TimeClip leaves it -/
+def TVok : Spec.TV → Prop
+  | some t => t.natAbs ≤ 8640000000000000
+  | none => True
+
+theorem TVok_setUTC (k : Spec.Setter) (tv : Spec.TV) (args : List FV) : TVok (Spec.setUTC k tv args) := by
+  cases h : Spec.setUTC k tv args with
+  | none => trivial
+  | some t' => exact spec_setUTC_range k tv args t' h
 
 /-- one call of any of the eight setters (setTime included) with 1..limit integral arguments, from ANY object state
-    (valid or invalid): new state and return value are the ES5 ones. -/
-theorem setUTC_step (k : Setter) (tv : Spec.TV) (vs : List Int) (h1 : 1 ≤ vs.length) (h2 : vs.length ≤ k.limit)
+    (valid or invalid): new state and return value are the ES5 ones, outside `huge_field_cancel`. -/
+theorem setUTC_step (k : Setter) (tv : Spec.TV) (hok : TVok tv) (vs : List Int) (h1 : 1 ≤ vs.length) (h2 : vs.length ≤ k.limit)
     (hsm : ∀ v ∈ vs, v.natAbs < 2^53)
-    (hdiv : ∀ t', Spec.setUTCRaw (toSpec k) tv (vs.map ofInt) = some t' → t'.natAbs ≤ 8640000000000000 → DivExact t') :
+    (hdiv : ∀ t', Spec.setUTCRaw (toSpec k) tv (vs.map ofInt) = some t' → t'.natAbs ≤ 8640000000000000 → DivExact t')
+    (hnc : ¬ (setterHuge k (tv.getD 0) vs = true ∧ (Spec.setUTC (toSpec k) tv (vs.map ofInt)).isSome = true)) :
     setUTC k (stateOf tv) (vs.map ofInt) =
       (stateOf (Spec.setUTC (toSpec k) tv (vs.map ofInt)), Spec.setUTC (toSpec k) tv (vs.map ofInt)) := by
   by_cases hk : k = .time
@@ -653,14 +800,14 @@ theorem setUTC_step (k : Setter) (tv : Spec.TV) (vs : List Int) (h1 : 1 ≤ vs.l
       rw [set_ofInt _ v (hdiv v hraw), stateOf_value]
     · simp [Setter.limit] at h2
   · cases tv with
-    | some t => exact setUTC_valid k t vs hk h1 h2 hsm hdiv
+    | some t => exact setUTC_valid k t hok vs hk h1 h2 hsm hdiv hnc
     | none =>
       by_cases hy : k = .year
       · subst hy
         have hraw : Spec.setUTCRaw (toSpec .year) none (vs.map ofInt) = Spec.setUTCRaw (toSpec .year) (some 0) (vs.map ofInt) := rfl
         have hspec : Spec.setUTC (toSpec .year) none (vs.map ofInt) = Spec.setUTC (toSpec .year) (some 0) (vs.map ofInt) := rfl
-        rw [hspec, ← setUTC_valid .year 0 vs hk h1 h2 hsm (by rw [← hraw]; exact hdiv)]
-        simp [setUTC, stateOf, invalidDateObject, newDate_zero]
+        rw [hspec, ← setUTC_valid .year 0 (by decide) vs hk h1 h2 hsm (by rw [← hraw]; exact hdiv) (by rw [← hspec]; exact hnc)]
+        simp [setUTC, stateOf, invalidDateObject, newDate_zero, validState]
       · have hspec : Spec.setUTC (toSpec k) none (vs.map ofInt) = none := by
           cases k <;> first | exact absurd rfl hk | exact absurd rfl hy | rfl
         rw [hspec]
@@ -669,27 +816,87 @@ theorem setUTC_step (k : Setter) (tv : Spec.TV) (vs : List Int) (h1 : 1 ≤ vs.l
 def liftM (s : Setter × List Int) : Setter × List FV := (s.1, s.2.map ofInt)
 def liftS (s : Setter × List Int) : Spec.Setter × List FV := (toSpec s.1, s.2.map ofInt)
 
-/-- side conditions of a history: every call has 1..limit integral arguments (below 2^53), and every in-range
-    intermediate value passes the float64 division gate.  No range restriction: beyond ±8.64e15 both sides go NaN. -/
+/-- side conditions of a history: every call has 1..limit integral arguments (below 2^53), every in-range
+    intermediate value passes the float64 division gate, and no call falls into `huge_field_cancel`. -/
 def Good : Spec.TV → List (Setter × List Int) → Prop
   | _, [] => True
   | tv, (k, vs) :: rest => 1 ≤ vs.length ∧ vs.length ≤ k.limit ∧ (∀ v ∈ vs, v.natAbs < 2^53) ∧
       (∀ t', Spec.setUTCRaw (toSpec k) tv (vs.map ofInt) = some t' → t'.natAbs ≤ 8640000000000000 → DivExact t') ∧
+      ¬ (setterHuge k (tv.getD 0) vs = true ∧ (Spec.setUTC (toSpec k) tv (vs.map ofInt)).isSome = true) ∧
       Good (Spec.setUTC (toSpec k) tv (vs.map ofInt)) rest
 
-theorem setter_histories (hist : List (Setter × List Int)) : ∀ tv : Spec.TV, Good tv hist →
+theorem setter_histories (hist : List (Setter × List Int)) : ∀ tv : Spec.TV, TVok tv → Good tv hist →
     runSetters (stateOf tv) (hist.map liftM) =
       (stateOf (Spec.runSetters tv (hist.map liftS)).1, (Spec.runSetters tv (hist.map liftS)).2) := by
   induction hist with
-  | nil => intro tv _; rfl
+  | nil => intro tv _ _; rfl
   | cons s rest ih =>
-    intro tv hg
+    intro tv hok hg
     obtain ⟨k, vs⟩ := s
-    obtain ⟨h1, h2, hsm, hdiv, hrest⟩ := hg
-    have hstep := setUTC_step k tv vs h1 h2 hsm hdiv
-    have := ih _ hrest
+    obtain ⟨h1, h2, hsm, hdiv, hnc, hrest⟩ := hg
+    have hstep := setUTC_step k tv hok vs h1 h2 hsm hdiv hnc
+    have := ih _ (TVok_setUTC _ _ _) hrest
     simp only [List.map_cons, liftS, liftM, Spec.runSetters, runSetters, hstep]
     rw [this]
+
+-- ---------------------------------------------------------------- scripted arguments
+
+def toSpecArg : Arg → Spec.Arg
+  | .num x => .num x | .obj x => .obj x | .thrower => .thrower
+
+theorem conv_eq (as : List Arg) : ∀ i, convArgs as i = Spec.convAll (as.map toSpecArg) i := by
+  induction as with
+  | nil => intro i; rfl
+  | cons a rest ih =>
+    intro i
+    cases a with
+    | num x =>
+      simp only [convArgs, Arg.logs, Arg.val?, List.map_cons, toSpecArg, Spec.convAll, ih (i + 1)]
+      cases h : Spec.convAll (rest.map toSpecArg) (i + 1) with
+      | mk l r => cases r <;> simp
+    | obj x =>
+      simp only [convArgs, Arg.logs, Arg.val?, List.map_cons, toSpecArg, Spec.convAll, ih (i + 1)]
+      cases h : Spec.convAll (rest.map toSpecArg) (i + 1) with
+      | mk l r => cases r <;> simp
+    | thrower => simp [convArgs, Arg.logs, Arg.val?, toSpecArg, Spec.convAll]
+
+theorem limit_arity (k : Setter) : k.limit = (toSpec k).arity := by cases k <;> rfl
+
+/-- ToNumber is applied to the same arguments, in the same order, with the same log, as §15.9.5.27–.41 say -/
+theorem scripted_conversions (k : Setter) (as : List Arg) :
+    convArgs (as.take k.limit) 0 = Spec.convAll ((as.map toSpecArg).take (toSpec k).arity) 0 := by
+  rw [conv_eq, limit_arity, List.map_take]
+
+/-- a throwing valueOf: same log, exception on both sides, and the date is left untouched -/
+theorem scripted_throw (k : Setter) (d : DateObj) (tv : Spec.TV) (as : List Arg) (l : List Nat)
+    (h : Spec.convAll ((as.map toSpecArg).take (toSpec k).arity) 0 = (l, none)) :
+    setUTCS k d as = (d, .threw, l) ∧ Spec.setUTCS (toSpec k) tv (as.map toSpecArg) = (tv, .threw, l) := by
+  have hm := scripted_conversions k as
+  rw [h] at hm
+  simp [setUTCS, Spec.setUTCS, hm, h]
+
+/-- no exception: same log, and both sides continue with the unscripted call on the same numbers -/
+theorem scripted_values (k : Setter) (d : DateObj) (tv : Spec.TV) (as : List Arg) (l : List Nat) (vs : List FV)
+    (h : Spec.convAll ((as.map toSpecArg).take (toSpec k).arity) 0 = (l, some vs)) :
+    setUTCS k d as = ((setUTC k d vs).1, .ret (setUTC k d vs).2, l) ∧
+    Spec.setUTCS (toSpec k) tv (as.map toSpecArg) = (Spec.setUTC (toSpec k) tv vs, .ret (Spec.setUTC (toSpec k) tv vs), l) := by
+  have hm := scripted_conversions k as
+  rw [h] at hm
+  simp [setUTCS, Spec.setUTCS, hm, h]
+
+/-- Date.UTC: the first seven arguments are converted, all of them, in order; an exception propagates with the
+    same log; otherwise both sides compute on the same numbers -/
+theorem scripted_utc (as : List Arg) (l : List Nat) (r : Option (List FV))
+    (h : Spec.convAll ((as.map toSpecArg).take 7) 0 = (l, r)) :
+    (newDateTimeS as).2 = l ∧ (Spec.dateUTCS (as.map toSpecArg)).2 = l ∧
+    (r = none → (newDateTimeS as).1 = .threw ∧ (Spec.dateUTCS (as.map toSpecArg)).1 = .threw) ∧
+    (∀ vs, r = some vs → (newDateTimeS as).1 = .ret (newDateTime vs) ∧ (Spec.dateUTCS (as.map toSpecArg)).1 = .ret (Spec.dateUTC vs)) := by
+  have hm : convArgs (as.take 7) 0 = (l, r) := by rw [conv_eq, List.map_take]; exact h
+  cases r with
+  | none => simp [newDateTimeS, Spec.dateUTCS, hm, h]
+  | some vs => simp [newDateTimeS, Spec.dateUTCS, hm, h]
+
+
 
 -- ---------------------------------------------------------------- Date.UTC wrapper on integral doubles
 
@@ -714,46 +921,84 @@ theorem clip_eq (um : Int) : (if beyondMax (ofInt um) = true then none else some
   rw [beyondMax_ofInt]; unfold Spec.TimeClip
   by_cases h : um.natAbs > 8640000000000000 <;> simp [h]
 
-theorem year_adjust (y : Int) (hr : y.natAbs < 2^53) :
-    OttoVerif.C05.goInt64 (if (le zero (trunc (fvInt y)) && le (trunc (fvInt y)) (.fin false 99 0)) = true then add (.fin false 1900 0) (trunc (fvInt y)) else fvInt y) = Spec.fullYear y := by
+theorem yearAdj_cases (y : Int) (_hr : y.natAbs < 2^53) :
+    (if (le zero (trunc (fvInt y)) && le (trunc (fvInt y)) (.fin false 99 0)) = true then add (.fin false 1900 0) (trunc (fvInt y)) else fvInt y) =
+      (if 0 ≤ y ∧ y ≤ 99 then add (.fin false 1900 0) (.fin false y.toNat 0) else fvInt y) := by
   have e0 : zero = fvInt 0 := rfl
   have e99 : (FV.fin false 99 0) = fvInt 99 := rfl
   rw [trunc_fvInt, e0, e99, le_fvInt, le_fvInt]
-  unfold Spec.fullYear
   by_cases h : 0 ≤ y ∧ y ≤ 99
   · have h1 := h.1; have h2 := h.2
-    simp only [h1, h2, decide_true, Bool.and_self, if_true, and_self]
-    have := add1900_fin ⟨y.toNat, by omega⟩
-    simp only [] at this
     have ey : fvInt y = .fin false y.toNat 0 := by
       unfold fvInt; congr 1
       · simp; omega
       · omega
-    rw [ey, this]; omega
+    simp only [h1, h2, decide_true, Bool.and_self, if_true, and_self, ey]
   · have : ¬ (decide (0 ≤ y) && decide (y ≤ 99)) = true := by simp; omega
-    simp only [this, h, if_false]
-    exact goInt64_small y hr
+    simp only [this, h, if_false, Bool.false_eq_true]
 
-/-- Date.UTC(y, m, …) with 2..7 integral arguments, through the float64 wrapper, TimeClip included -/
+theorem yearTest_fin : ∀ y : Fin 100, lt (fvC 2500000) (abs (add (.fin false 1900 0) (.fin false y.val 0))) = false := by
+  decide +kernel
+
+theorem tooLarge_year (Y : FV) (m d h mi s ms : Int) (hy : lt (fvC 2500000) (abs Y) = false) :
+    tooLarge Y (fvInt m) (fvInt d) (fvInt h) (fvInt mi) (fvInt s) (fvInt ms) = hugeInt 0 m d h mi s ms := by
+  unfold tooLarge hugeInt
+  simp only [lt_fvC_abs, hy]
+  simp [Bool.or_assoc]
+
+/-- the tail of newDateTime on integral doubles: the guard, then exactly §15.9.4.3 with TimeClip -/
+theorem ndt_fields (y m d h mi s ms : Int) (hy : y.natAbs < 2^53) (hm : m.natAbs < 2^53) (hd : d.natAbs < 2^53)
+    (hh : h.natAbs < 2^53) (hmi : mi.natAbs < 2^53) (hs : s.natAbs < 2^53) (hms : ms.natAbs < 2^53) :
+    newDateTimeFields (fvInt y) (fvInt m) (fvInt d) (fvInt h) (fvInt mi) (fvInt s) (fvInt ms) =
+      if hugeInt (Spec.fullYear y) m d h mi s ms then none
+      else Spec.TimeClip (Spec.MakeDate (Spec.MakeDay (Spec.fullYear y) m d) (Spec.MakeTime h mi s ms)) := by
+  unfold newDateTimeFields
+  simp only []
+  rw [yearAdj_cases y hy]
+  have gm := goInt64_small m hm
+  have gd := goInt64_small d hd
+  have gh := goInt64_small h hh
+  have gmi := goInt64_small mi hmi
+  have gs := goInt64_small s hs
+  have gms := goInt64_small ms hms
+  have gy := goInt64_small y hy
+  have ge : ∀ v : Int, OttoVerif.C05.goInt64 (fvInt v) = OttoVerif.C05.goInt64 (.fin (decide (v < 0)) v.natAbs 0) := fun _ => rfl
+  simp only [ge, gm, gd, gh, gmi, gs, gms]
+  by_cases hc : 0 ≤ y ∧ y ≤ 99
+  · simp only [hc, and_self, if_true]
+    have h1 := yearTest_fin ⟨y.toNat, by omega⟩
+    have h2 := add1900_fin ⟨y.toNat, by omega⟩
+    simp only [] at h1 h2
+    rw [tooLarge_year _ m d h mi s ms h1, h2]
+    have hf : Spec.fullYear y = 1900 + y := by unfold Spec.fullYear; rw [if_pos hc]
+    have hhuge : hugeInt (Spec.fullYear y) m d h mi s ms = hugeInt 0 m d h mi s ms := by
+      rw [hf]; unfold hugeInt
+      have : ¬ ((1900 + y).natAbs > 2500000) := by omega
+      simp [this]
+    rw [hhuge, hf, show ((y.toNat : Nat) : Int) + 1900 = 1900 + y by omega, dateCore, make_compose_ms, clip_eq]
+  · simp only [hc, if_false]
+    have hf : Spec.fullYear y = y := by unfold Spec.fullYear; rw [if_neg hc]
+    rw [tooLarge_fvInt, hf, ge, gy, dateCore, make_compose_ms, clip_eq]
+
+/-- the guard of Date.UTC on a list of 2..7 integers -/
+def utcHuge (vs : List Int) : Bool :=
+  hugeInt (Spec.fullYear (vs.getD 0 0)) (vs.getD 1 0) (vs.getD 2 1) (vs.getD 3 0) (vs.getD 4 0) (vs.getD 5 0) (vs.getD 6 0)
+
+/-- Date.UTC(y, m, …) with 2..7 integral arguments, through the float64 wrapper, guard and TimeClip included -/
 theorem dateUTC_int (vs : List Int) (h2 : 2 ≤ vs.length) (h7 : vs.length ≤ 7) (hsm : ∀ v ∈ vs, v.natAbs < 2^53) :
-    newDateTime (vs.map ofInt) = Spec.dateUTC (vs.map ofInt) := by
+    newDateTime (vs.map ofInt) = if utcHuge vs then none else Spec.dateUTC (vs.map ofInt) := by
   rw [map_ofInt_small vs hsm]
-  have g : ∀ v ∈ vs, OttoVerif.C05.goInt64 (fvInt v) = v := fun v hv => goInt64_small v (hsm v hv)
-  have ya : ∀ v ∈ vs, OttoVerif.C05.goInt64 (if le zero (trunc (fvInt v)) = true ∧ le (trunc (fvInt v)) (.fin false 99 0) = true then add (.fin false 1900 0) (trunc (fvInt v)) else fvInt v) = Spec.fullYear v := by
-    intro v hv
-    have := year_adjust v (hsm v hv)
-    simp only [Bool.and_eq_true] at this
-    exact this
-  have mc0 : ∀ y m d h mi s : Int, goUnixMilli (goDate y (m + 1) d h mi s 0) = Spec.MakeDate (Spec.MakeDay y m d) (Spec.MakeTime h mi s 0) := by
-    intro y m d h mi s
-    have := make_compose y m d h mi s 0
-    simpa using this
-  have z0 : OttoVerif.C05.goInt64 zero = 0 := by decide
-  have o1 : OttoVerif.C05.goInt64 one = 1 := by decide
+  have hz : zero = fvInt 0 := rfl
+  have ho : one = fvInt 1 := rfl
+  have s0 : (0:Int).natAbs < 2^53 := by decide
+  have s1 : (1:Int).natAbs < 2^53 := by decide
   rcases vs with _ | ⟨a, _ | ⟨b, _ | ⟨c, _ | ⟨d, _ | ⟨e, _ | ⟨f, _ | ⟨g', _ | ⟨x, rest⟩⟩⟩⟩⟩⟩⟩⟩ <;> simp at h2 h7
   all_goals
-    simp only [List.mem_cons, List.mem_nil_iff, or_false, forall_eq_or_imp, forall_eq] at g ya
-    simp [newDateTime, Spec.dateUTC, Spec.dateUTCRaw, pick_fvInt, field_fvInt, dateCore, make_compose, mc0, g, ya, z0, o1, clip_eq]
+    simp only [List.mem_cons, List.mem_nil_iff, or_false, forall_eq_or_imp, forall_eq] at hsm
+    simp only [newDateTime, List.map_cons, List.map_nil, List.getElem?_cons_zero, List.getElem?_cons_succ, List.getElem?_nil,
+      Option.getD_some, Option.getD_none, hz, ho, List.any_cons, List.any_nil, pick_fvInt, Bool.or_self, Bool.false_eq_true, if_false]
+    rw [ndt_fields _ _ _ _ _ _ _ (by omega) (by omega) (by omega) (by omega) (by omega) (by omega) (by omega)]
+    simp [utcHuge, Spec.dateUTC, Spec.dateUTCRaw, field_fvInt]
 
 -- ---------------------------------------------------------------- ISO-8601 strings
 
@@ -823,27 +1068,6 @@ theorem isLeap_flag (t : Int) : goIsLeap (Spec.YearFromTime t) = decide (Spec.In
       | true => exact absurd ((goIsLeap_iff _).1 hh) hc
     simp [hc, this]
 
-theorem field_ranges (t : Int) :
-    (0 ≤ Spec.MonthFromTime t ∧ Spec.MonthFromTime t ≤ 11) ∧ (1 ≤ Spec.DateFromTime t ∧ Spec.DateFromTime t ≤ 31) ∧
-    (0 ≤ Spec.WeekDay t ∧ Spec.WeekDay t ≤ 6) ∧ (0 ≤ Spec.HourFromTime t ∧ Spec.HourFromTime t ≤ 23) ∧
-    (0 ≤ Spec.MinFromTime t ∧ Spec.MinFromTime t ≤ 59) ∧ (0 ≤ Spec.SecFromTime t ∧ Spec.SecFromTime t ≤ 59) ∧
-    (0 ≤ Spec.msFromTime t ∧ Spec.msFromTime t ≤ 999) := by
-  have hm := monthFromTime_range t
-  have hr := dayWithinYear_range t
-  have hl := inLeapYear_01 t
-  refine ⟨hm, ?_, ?_, ?_, ?_, ?_, ?_⟩
-  · rw [dateFromTime_eq]
-    have hmo : Spec.MonthFromTime t = monthOf (Spec.DayWithinYear t) (Spec.InLeapYear t) := rfl
-    generalize Spec.MonthFromTime t = m at *
-    generalize Spec.DayWithinYear t = d at *
-    generalize Spec.InLeapYear t = l at *
-    subst hmo
-    unfold monthOf
-    repeat' split
-    all_goals (simp only [Spec.monthStart]; omega)
-  all_goals (simp only [Spec.WeekDay, Spec.HourFromTime, Spec.MinFromTime, Spec.SecFromTime, Spec.msFromTime]; omega)
-
-
 theorem sprintf_eq (x : Int) (h : x.natAbs < 10 ^ 6) :
     goSprintfPlus07 x = (if x < 0 then 45 else 43) :: Spec.digits 6 x.natAbs := by
   unfold goSprintfPlus07
@@ -851,21 +1075,6 @@ theorem sprintf_eq (x : Int) (h : x.natAbs < 10 ^ 6) :
   simp only []
   rw [List.append_assoc, this]
   split <;> rfl
-
-/-- the year of a time value in the ES5 range -/
-theorem year_bound (t : Int) (h : t.natAbs ≤ 8640000000000000) :
-    -271821 ≤ Spec.YearFromTime t ∧ Spec.YearFromTime t ≤ 275760 := by
-  have hb := yft_bounds t
-  have hd : -100000000 ≤ Spec.Day t ∧ Spec.Day t ≤ 100000000 := by unfold Spec.Day; omega
-  have e1 : Spec.DayFromYear 275761 = 100000110 := by decide
-  have e2 : Spec.DayFromYear (-271821) = -100000109 := by decide
-  constructor
-  · by_cases hc : Spec.YearFromTime t + 1 ≤ -271821
-    · have := dayFromYear_le _ _ hc; omega
-    · omega
-  · by_cases hc : 275761 ≤ Spec.YearFromTime t
-    · have := dayFromYear_le _ _ hc; omega
-    · omega
 
 /-- toISOString of a valid date is the §15.9.1.15 string, expanded years included (|year| < 10^6) -/
 theorem iso_format_eq (t : Int) (hy : (Spec.YearFromTime t).natAbs < 10 ^ 6) :
